@@ -321,7 +321,13 @@ def _get_labels(txt: str) -> str:
     return labels
 
 
+# the regex module may know decimal digits of a newer Unicode version than the
+# interpreter does: int() cannot convert those, so they count as separators
+_repl0 = regex.compile(r"\d")
+
+
 def _preprocess_string(txt: str) -> str:
+    txt = _repl0.sub(lambda m: m.group() if m.group().isdecimal() else " ", txt)
     return cast(
         str, _repl2.sub("-", _repl1.sub(" ", txt, concurrent=True).strip()).strip()
     )
